@@ -75,8 +75,28 @@ type Scenario struct {
 	// Other simulations keep their own payload here.
 	Extra json.RawMessage `json:"extra,omitempty"`
 
+	// Repeat n > 1: the replay runs the very same scenario n times in ONE process and judges the last
+	// run. A run is a pure function of the scenario, so this changes nothing - unless the code under
+	// test keeps process-wide state that leaks from one run into the next (a violation in itself).
+	Repeat int `json:"repeat,omitempty"`
+
+	// History, when set, makes the replay re-run a range of run indices of the check in one process and
+	// judge the last of them: the fallback for a violation that needs what EARLIER runs left behind in
+	// process-wide state of the code under test (the scenario above is then the minimised last run, for
+	// reading; it does not fail on its own).
+	History *HistoryReplay `json:"history,omitempty"`
+
 	// Filled in when a violation is reported.
 	Violation *ViolationInfo `json:"violation,omitempty"`
+}
+
+// HistoryReplay names the run indices From, From+Step, ..., Upto of one check under one seed and tier.
+type HistoryReplay struct {
+	Tier string `json:"tier"`
+	Seed uint64 `json:"seed"`
+	From int    `json:"from"`
+	Step int    `json:"step"`
+	Upto int    `json:"upto"`
 }
 
 // ViolationInfo is stored in a replay file next to the minimised scenario.
